@@ -139,7 +139,7 @@ PROPS = {
         "partial": "loss detection by the OS and wall-clock back-off are runtime",
     },
     "C12": {
-        "kind": "client", "modules": ["OAP.Props.C12"],
+        "kind": "client", "conformance_conn": True, "modules": ["OAP.Props.C12"],
         "keys": ["handshake_first", "stream_shape", "exactly_once_in_order", "enqueue_nonblocking", "ws_url_announces_version", "ws_one_message_per_frame", "ws_binary_message", "timing"],
         "rule": "1-48 concurrent writers, frame sizes 1 B .. 2.5 MB, write-queue sizes 1..64, gzip thresholds, a stalled peer; the peer's raw byte log is cut "
                 "into frames by an independent layout parser: first two bytes = handshake, whole frames only, every accepted write exactly once and in "
@@ -147,14 +147,14 @@ PROPS = {
         "partial": "net.Conn.Write and gorilla/websocket are runtime",
     },
     "C13": {
-        "kind": "client", "modules": ["OAP.Props.C13"], "keys": ["dispatch_spec", "loss_accounting", "control_never_to_subscribers", "dispatch_matches_model"],
+        "kind": "client", "conformance_conn": True, "modules": ["OAP.Props.C13"], "keys": ["dispatch_spec", "loss_accounting", "control_never_to_subscribers", "dispatch_matches_model"],
         "rule": "pushes of 4 commands with 0-3 handlers each, interleaved with control pushes and unsolicited responses, bursts of 12..300 frames in one "
                 "TCP write, slow handlers, queue overflow, across a reconnect, pushes sent the moment the connection is accepted; the handler invocation "
                 "log is compared with the routing spec applied to the frames the peer sent (minus logged drops).",
         "partial": "socket delivery is runtime",
     },
     "C14": {
-        "kind": "client", "conformance_recovery": True, "modules": ["OAP.Props.C14"], "keys": ["close_final", "on_close_once", "close_no_panic", "close_prompt", "hitmax_reported", "no_panic"],
+        "kind": "client", "conformance_conn": True, "conformance_recovery": True, "modules": ["OAP.Props.C14"], "keys": ["close_final", "on_close_once", "close_no_panic", "close_prompt", "hitmax_reported", "no_panic"],
         "rule": "Close in every client state of the quantifier: idle, requests in flight, incoming burst (reader/dispatcher busy), right after a peer drop, "
                 "between failing reconnect attempts, right after the first failed attempt, with hit-max about to fire, the client giving up on its own, "
                 "and a writer parked by a gate between the transport's closed() check and the queue send while the connection is closed; followed by a "
@@ -170,7 +170,7 @@ PROPS = {
         "partial": "ticker jitter: real-time bounds with slack",
     },
     "C16": {
-        "kind": "client", "conformance_recovery": True, "conformance": True, "modules": ["OAP.Props.C16"], "keys": ["client_threads_exit", "sockets_released", "bounded_live"],
+        "kind": "client", "conformance_conn": True, "conformance_recovery": True, "conformance": True, "modules": ["OAP.Props.C16"], "keys": ["client_threads_exit", "sockets_released", "bounded_live"],
         "rule": "cycle scenarios over {dial+close, dial+peer drop+recover+close, dial+server close packet+recover+close, failed dial}: library goroutines "
                 "(goroutine profile filtered to the client package) and sockets open at the peers after 2 cycles and after 10 more must not grow; plus "
                 "the C14 scenarios' end-state checks (no library goroutine, no open socket after Close).",
